@@ -308,8 +308,8 @@ func (a *aggregate) write(file, meta string) error {
 		"assumptions": []string{
 			"a clean batch is evidence, not proof: histories and schedules are sampled by a seeded PRNG, not enumerated",
 			"the instrumented scratch copy behaves like /repo's code: the rewriter only adds calls to vsimrt.Y/YS and swaps sync type names",
-			"blocking the rewriter cannot see (bare channel operations) ends in SIM-STALL (exit 2), not in a verdict",
-			"the race oracle inherits ThreadSanitizer's limits (4 shadow cells per word; task count is kept <= 4)",
+			"blocking the rewriter cannot see (select without default stops the instrumenter; named channel types in range loops block for real) ends in exit 2, not in a verdict",
+			"the race oracle inherits ThreadSanitizer's limits (4 shadow cells per word; task count is <= 4 in nine runs of ten); real synchronisation inside the code under test (pools, including those of math/big) can legitimately order accesses and hide a race in that execution",
 		},
 		"wall_s":     a.wallS,
 		"violations": a.violations,
